@@ -7,7 +7,7 @@
    unzip (zip b) = Some b, zip never returns the empty string); a stream is ANY list of chunks
    whose concatenation is the bytes on the wire.  [has_c] = a cipher is installed. *)
 From Coq Require Import ZArith NArith List Bool.
-From FV Require Import Lib.NList Lib.BE Lib.Crc32 C01.Model C01.ProofsIO C01.ProofsV1 C01.ProofsV2 C01.Proofs.
+From FV Require Import Lib.NList Lib.BE Lib.Crc32 C01.Model C01.RunLib C01.ProofsIO C01.ProofsV1 C01.ProofsV2 C01.Proofs.
 Import ListNotations.
 Open Scope N_scope.
 
@@ -148,6 +148,23 @@ Theorem c01_within_limit_ok_v2 : forall enc zip thr has_c p,
   /\ (lenN (p_refers p) <= 255 -> size <= max2 -> w_ret (write_v2 enc zip thr has_c p) = Some size).
 Proof. exact write_v2_limit. Qed.
 Print Assumptions c01_within_limit_ok_v2.
+
+(* the closed form the harness compares the implementation with at the 60 KiB / 8 MiB / 255
+   reference boundaries (sizes only): for a packet that is neither compressed nor encrypted the
+   model's verdict is [limit_predict] of the reference count and the body length *)
+Theorem c01_limit_closed_form_v1 : forall enc zip thr p,
+  lenN (body_bytes (p_body p)) <= thr ->
+  w_ret (write_v1 enc zip thr false p)
+  = limit_predict 1 (lenN (p_refers p)) (lenN (body_bytes (p_body p))).
+Proof. exact limit_predict_v1. Qed.
+Print Assumptions c01_limit_closed_form_v1.
+
+Theorem c01_limit_closed_form_v2 : forall enc zip thr p,
+  lenN (body_bytes (p_body p)) <= thr ->
+  w_ret (write_v2 enc zip thr false p)
+  = limit_predict 2 (lenN (p_refers p)) (lenN (body_bytes (p_body p))).
+Proof. exact limit_predict_v2. Qed.
+Print Assumptions c01_limit_closed_form_v2.
 
 (* the length-prefixed helper (codec.WriteLenData / ReadLenData) *)
 Theorem c01_lendata_roundtrip : forall d n ws s rest,
